@@ -302,14 +302,6 @@ Definition tagged_record (h : str) (ix : idx_oracle) (library reason : option st
     let d := match library with Some l => if has k_LY d then d else dset k_LY l d | None => d end in
     Ok (match reason with Some r => dset k_RR r d | None => d end)).
 
-(* the tags UmiBarcodeDemuxMethod.demultiplex adds (barcode lookup is C03's, slicing is C02's subject) *)
-Definition umi_barcode_tags (d : store) (umi : option (str * str)) (bi rawbc mx bc : str) : res store :=
-  bind (match umi with
-        | None => Ok d
-        | Some (u, q) => bind (phred_enc q) (fun e => Ok (dset k_RQ e (dset k_RX u d)))
-        end)
-       (fun d => Ok (update d [(k_bi, bi); (k_bc, rawbc); (k_MX, mx); (k_BC, bc)])).
-
 (* ---------------------------------------------------------------- decoder: fromTaggedBamRecord *)
 (* the loop  for keyValue in ...: key, value = keyValue.split(':'); addTagByTag(key, value, isPhred=False)
    returns the store so far and whether it ran to completion (false = ValueError at some item) *)
